@@ -260,7 +260,7 @@ def minimise(prop: str, v: dict, max_seconds: float = 120.0) -> dict:
         op["_id"] = i
     for f in plan["faults"]:
         f["_opid"] = f["op"]
-    structural = ("write", "mkdir", "symlink", "link", "chdir") if prop == "C18" else ("chdir",)
+    structural = ("write", "mkdir", "symlink", "link", "chdir", "tamper") if prop == "C18" else ()
     ops = ddmin(plan["ops"], lambda cand: reproduces(prop, with_ops(cand), sig, goldens), budget, keep=lambda op: op["op"] in structural)
     plan = with_ops(ops)
     if plan["faults"] and budget.ok():
@@ -310,6 +310,16 @@ def minimise(prop: str, v: dict, max_seconds: float = 120.0) -> dict:
     out = dict(v)
     out["plan"] = plan
     out["minimise_calls"] = budget.calls
+    # point the report at the operation of the *minimised* plan
+    _, vs = judge_full(prop, plan, goldens)
+    for w in vs:
+        if w["sig"] == sig:
+            out["op_index"] = w["op_index"]
+            out["msg"] = w.get("msg", out.get("msg"))
+            out["tb"] = w.get("tb", out.get("tb"))
+            if w.get("detail"):
+                out["detail"] = w["detail"]
+            break
     return out
 
 
